@@ -36,7 +36,7 @@ class Monitors:
         orig_find = s.Cell._find_placements
 
         @functools.wraps(orig_find)
-        def find(self_, queue, servers):
+        def find(self_, queue, servers, *a, **kw):
             mon.queues.append([
                 dict(name=a.name, rank=a.final_rank, util=a.final_util,
                      server=a.server, prio=a.priority, renew=a.renew,
@@ -44,7 +44,7 @@ class Monitors:
                 for a in queue])
             mon.in_cycle = True
             try:
-                return orig_find(self_, queue, servers)
+                return orig_find(self_, queue, servers, *a, **kw)
             finally:
                 mon.in_cycle = False
                 mon.placing = None
@@ -53,10 +53,10 @@ class Monitors:
         orig_bput = s.Bucket.put
 
         @functools.wraps(orig_bput)
-        def bput(self_, app):
+        def bput(self_, app, *a, **kw):
             mon.walk_depth += 1
             try:
-                return orig_bput(self_, app)
+                return orig_bput(self_, app, *a, **kw)
             finally:
                 mon.walk_depth -= 1
         s.Bucket.put = bput
@@ -64,8 +64,8 @@ class Monitors:
         orig_sput = s.Server.put
 
         @functools.wraps(orig_sput)
-        def sput(self_, app):
-            ok = orig_sput(self_, app)
+        def sput(self_, app, *a, **kw):
+            ok = orig_sput(self_, app, *a, **kw)
             if mon.restoring:
                 via = 'restore'
             elif mon.walk_depth:
@@ -85,10 +85,10 @@ class Monitors:
         orig_restore = s.Server.restore
 
         @functools.wraps(orig_restore)
-        def srestore(self_, app, placement_expiry=None):
+        def srestore(self_, app, *a, **kw):
             mon.restoring += 1
             try:
-                ok = orig_restore(self_, app, placement_expiry)
+                ok = orig_restore(self_, app, *a, **kw)
             finally:
                 mon.restoring -= 1
             if mon.in_cycle:
@@ -99,21 +99,21 @@ class Monitors:
         orig_remove = s.Server.remove
 
         @functools.wraps(orig_remove)
-        def sremove(self_, app_name):
+        def sremove(self_, app_name, *a, **kw):
             if mon.in_cycle and mon.placing is not None and mon.placing != app_name:
                 mon.events.append(dict(t='evict', victim=app_name, server=self_.name,
                                        state=self_.state.value, **{'for': mon.placing}))
                 mon.counters['evictions'] += 1
             else:
                 mon.events.append(dict(t='remove', app=app_name, server=self_.name))
-            return orig_remove(self_, app_name)
+            return orig_remove(self_, app_name, *a, **kw)
         s.Server.remove = sremove
 
         orig_renew = s.Server.renew
 
         @functools.wraps(orig_renew)
-        def srenew(self_, app):
-            ok = orig_renew(self_, app)
+        def srenew(self_, app, *a, **kw):
+            ok = orig_renew(self_, app, *a, **kw)
             mon.counters['renew_ok' if ok else 'renew_failed'] += 1
             mon.events.append(dict(t='renew', app=app.name, server=self_.name, ok=ok))
             return ok
@@ -122,8 +122,8 @@ class Monitors:
         orig_feasible = s.PlacementFeasibilityTracker.feasible
 
         @functools.wraps(orig_feasible)
-        def feasible(self_, app):
-            ok = orig_feasible(self_, app)
+        def feasible(self_, app, *a, **kw):
+            ok = orig_feasible(self_, app, *a, **kw)
             if self_.recorder:
                 mon.tracker_consulted += 1
                 mon.counters['tracker_consulted'] += 1
@@ -138,17 +138,17 @@ class Monitors:
         orig_adjust = s.PlacementFeasibilityTracker.adjust
 
         @functools.wraps(orig_adjust)
-        def adjust(self_, app):
+        def adjust(self_, app, *a, **kw):
             if mon.placing == app.name:
                 mon.placing = None
-            return orig_adjust(self_, app)
+            return orig_adjust(self_, app, *a, **kw)
         s.PlacementFeasibilityTracker.adjust = adjust
 
         orig_release = s.Application.release_identity
 
         @functools.wraps(orig_release)
-        def release(self_):
+        def release(self_, *a, **kw):
             if mon.placing == self_.name:
                 mon.placing = None
-            return orig_release(self_)
+            return orig_release(self_, *a, **kw)
         s.Application.release_identity = release
